@@ -1,5 +1,6 @@
 import S2T.Lemmas.Router
 import S2T.Gen.Router
+import S2T.Props.C07_Src
 /-!
 # C07 — Routing: `is_supported_file` ⇔ `get_extractor` succeeds; the extension decides
 
